@@ -17,3 +17,5 @@ EXTRA_ASSUMPTIONS = ["ASSUMED contract TrackRecord._checkpoint (append one recor
 
 from shell import runtime as _runtime
 SHELL = [_runtime.contracts_at_run_time]
+
+USES_SUM_LEMMAS = True
